@@ -108,8 +108,23 @@ Definition cache_step (now : Z) (st : B * L * list chandle) (o : op) : (B * L * 
       let copied : B * L * option err :=
         match cs with
         | CLocal | CHit => (sb1, sl1, None)
-        | _ => copy_to_layer_with bstep lstep sb1 sl1 p
-                 (OpenFile p (if Z.eqb copyfiletolayer_clears_append 1 then Z.land flag (Z.lnot o_append) else flag) perm)
+        | _ =>
+          let open_op := OpenFile p (if Z.eqb copyfiletolayer_clears_append 1 then Z.land flag (Z.lnot o_append) else flag) perm in
+          (* since the fix (switch cache_openfile_dir_mkdir): the base is Stat-ed first and a directory is made in
+             the layer with MkdirAll, like CacheOnReadFs.copyToLayer does; before: everything went through
+             copyFileToLayer, which copies a directory like a file (EIO) *)
+          if Z.eqb cache_openfile_dir_mkdir 1 then
+            match bstep sb1 (Stat p) with
+            | (sb1', RInfo bfi) =>
+              if fi_dir bfi then
+                match lstep sl1 (MkdirAll p (Z.land (fi_mode bfi) 511)) with
+                | (sl2, ROk) => (sb1', sl2, None)
+                | (sl2, r) => (sb1', sl2, Some (err_of r))
+                end
+              else copy_to_layer_with bstep lstep sb1' sl1 p open_op
+            | (sb1', _) => copy_to_layer_with bstep lstep sb1' sl1 p open_op
+            end
+          else copy_to_layer_with bstep lstep sb1 sl1 p open_op
         end in
       (* after a copy the flag word loses O_EXCL (since the fix): the copy has created the file *)
       let flag := match cs with
